@@ -75,6 +75,20 @@ func hasDeclaredParent(t *gty) bool {
 // `case reflect.Interface` arms of the scalar values there).  "" = they agree; otherwise class + detail.
 func otherWaysBack(c px.Context, t *gty, wrapped px.Value, back reflect.Value) string {
 	rt := t.rtype()
+	// a nil context stands for the current one (px.CurrentContext(), which is c here): the same derived type
+	if pt, err := px.WrapReflectedType(c, rt); err == nil {
+		var pn px.Type
+		if k, text := safely(func() {
+			if pn, err = px.WrapReflectedType(nil, rt); err != nil {
+				panic(err)
+			}
+		}); k != "" {
+			return "nil-context-differs WrapReflectedType with a nil context faults: " + text
+		}
+		if !pn.Equals(pt, nil) {
+			return "nil-context-differs WrapReflectedType with a nil context gives " + pn.String() + ", with the current one " + pt.String()
+		}
+	}
 	var b2 reflect.Value
 	if k, text := safely(func() { b2 = c.Reflector().Reflect2(wrapped, rt) }); k != "" {
 		return "reflect2-fault Reflect2 faults where ReflectTo answers: " + text
@@ -487,6 +501,30 @@ func genDeclaredParents(g *core.G) {
 			both(child(P), "(st (p (st "+v+")) "+zero+")")
 			both(child(P2), "(st (p (st (st t) "+v+")) "+v+")")
 			both(&gty{kind: "slice", elem: child(P)}, "(s (st (p (st "+v+")) "+v+") (st (p (st "+zero+")) "+v+"))")
+		}
+	}
+}
+
+// genUndefDefaults: `value=>undef` beside a DECLARED type that is not Optional, on a field that can be nil — struct{A *e
+// "type=>T, value=>undef"; B string} for every scalar type e and every type T the generator declares for e (derived, wider,
+// narrower, Any, unfitting), at nil, at a pointer to the zero value and to another value.  ReflectFieldTags makes the
+// attribute type Optional[T] ("if a value is declared as being undef, then ensure that type accepts undef"); without that the
+// default is no instance of the type and the struct type cannot be derived.  Inside the model's tag grammar: sent to the model.
+func genUndefDefaults(g *core.G) {
+	for _, e := range leafTypes() {
+		zero, other := genVal(g.Rng, e, 0, 0), boundary(e)[len(boundary(e))-1]
+		for _, T := range tagTypes(e) {
+			for k, tag := range []string{"type=>" + T + ", value=>undef", "value=>undef, type=>" + T, "name=>'n', type=>" + T + ", value=>undef"} {
+				S := &gty{kind: "struct", fields: []gfield{{name: "A", t: &gty{kind: "ptr", elem: e}, tag: "puppet:\"" + tag + "\""}, {name: "B", t: &gty{kind: "string"}}}}
+				pre := "@"
+				if inModel(S) {
+					pre = ""
+				}
+				for _, v := range []string{"(st nil x61)", "(st (p " + zero + ") x)", "(st (p " + other + ") x6162)"}[:3-k] {
+					g.Emit(pre + "refl " + S.sexp().String() + " " + v)
+					g.Emit(pre + "obj " + S.sexp().String() + " " + v)
+				}
+			}
 		}
 	}
 }
